@@ -67,6 +67,8 @@ impl Session {
         // If the message nonce length is ever set below 4 bytes this will explode. The packet
         // size constants shouldn't be modified.
         let random_nonce: [u8; MESSAGE_NONCE_LENGTH - 4] = rand::random();
+        #[cfg(feature = "verif-hooks")]
+        let random_nonce = crate::verif::nonce_random_override(random_nonce);
         let mut message_nonce: MessageNonce = [0u8; MESSAGE_NONCE_LENGTH];
         message_nonce[..4].copy_from_slice(&self.counter.to_be_bytes());
         message_nonce[4..].copy_from_slice(&random_nonce);
@@ -266,5 +268,42 @@ impl Session {
         let session = Session::new(keys);
 
         Ok((packet, session))
+    }
+}
+
+#[cfg(feature = "verif-hooks")]
+impl Session {
+    pub(crate) fn verif_keys(&self) -> ([u8; 16], [u8; 16]) {
+        (self.keys.encryption_key, self.keys.decryption_key)
+    }
+
+    pub(crate) fn verif_from_keys(encryption_key: [u8; 16], decryption_key: [u8; 16]) -> Self {
+        Session::new(Keys {
+            encryption_key,
+            decryption_key,
+        })
+    }
+
+    pub(crate) fn verif_counter(&self) -> u32 {
+        self.counter
+    }
+
+    pub(crate) fn verif_snap(
+        &self,
+        addr: NodeAddress,
+        idle: Duration,
+    ) -> crate::verif::SessionSnap {
+        crate::verif::SessionSnap {
+            addr,
+            encryption_key: self.keys.encryption_key,
+            decryption_key: self.keys.decryption_key,
+            old_keys: self
+                .old_keys
+                .as_ref()
+                .map(|k| (k.encryption_key, k.decryption_key)),
+            awaiting_enr: self.awaiting_enr.as_ref().map(|id| id.0.clone()),
+            counter: self.counter,
+            idle,
+        }
     }
 }
